@@ -185,6 +185,35 @@ fn ids_from_foreign_lock(ins: &[(String, u128, TokKind)]) -> bool
     ins.iter().any(|x| x.1 >= FOREIGN_LOCK as u128 && x.1 < FOREIGN_LOCK as u128 + 100_000)
 }
 
+/// Error point 5 once more, started from the directory above the project (configuration path `proj/Breadlog.yaml` or
+/// absolute) where a directory of the configured relative name DOES exist and holds a file lacking a reference:
+/// the source directory still is missing, because it resolves against the configuration file (round-10 seed C16).
+fn run_case_from_parent(tree: &Tree, check: bool, absolute: bool) -> (RunResult, Snapshot, Snapshot, Sandbox)
+{
+    let sb = Sandbox::new();
+    materialise(&sb.proj(), tree);
+    let _ = std::fs::create_dir_all(sb.root.join(".git"));
+    let _ = std::fs::write(sb.root.join(".git/HEAD"), b"ref: refs/heads/main\n");
+    let _ = std::fs::write(sb.root.join("Breadlog.lock"), format!("{}next_reference_id: {}\n", LOCK_HEADER, FOREIGN_LOCK));
+    let _ = std::fs::create_dir_all(sb.root.join("nope"));
+    let _ = std::fs::write(sb.root.join("nope/decoy.rs"), b"fn d() {\n    warn!(\"cwd-relative decoy\");\n}\n");
+    let before = snapshot(&sb.root);
+    let rel = sb.proj().strip_prefix(&sb.root).map(|p| p.to_path_buf()).unwrap_or_else(|_| sb.proj());
+    let config_arg = if absolute { sb.proj().join("Breadlog.yaml") } else { rel.join("Breadlog.yaml") };
+    let r = crate::sandbox::run_breadlog(&crate::sandbox::RunSpec {
+        check,
+        cwd: sb.root.clone(),
+        config_arg: config_arg.to_string_lossy().into_owned(),
+        tmpdir: sb.tmp(),
+        plan: None,
+        trace: false,
+        roots: vec![sb.root.clone()],
+        timeout: std::time::Duration::from_secs(120),
+    });
+    let after = snapshot(&sb.root);
+    (r, before, after, sb)
+}
+
 pub fn check(c: &C16Case) -> CaseOutcome
 {
     let mut o = CaseOutcome::default();
@@ -208,6 +237,24 @@ pub fn check(c: &C16Case) -> CaseOutcome
         if !diff.is_empty()
         {
             o.fail("invalid-setup-changed-files", format!("{}: {:?}", what, diff));
+        }
+        if c.error_point == 5
+        {
+            let (r2, b2, a2, _sb2) = run_case_from_parent(&b.tree, c.check_mode, crate::engine::hash_of(c) % 2 == 1);
+            o.evals += 1;
+            o.class("error-point-missing-source-dir-from-parent-with-decoy");
+            let mut d2 = Vec::new();
+            no_crash(&r2, "run from the parent directory", &mut d2);
+            o.deviations.extend(d2);
+            if r2.exit.success()
+            {
+                o.fail("invalid-setup-accepted", format!("{}: started from the parent directory (which has a ./nope of its own): exit 0 although <config dir>/nope does not exist", what));
+            }
+            let diff2 = snapshot_diff(&b2, &a2, true, &|_| false);
+            if !diff2.is_empty()
+            {
+                o.fail("invalid-setup-changed-files", format!("{}: started from the parent directory: {:?}", what, diff2));
+            }
         }
         o.nontrivial = true;
         return o;
@@ -496,7 +543,7 @@ pub fn run(env: &Env, rec: &Recorder) -> (String, Vec<&'static str>)
     enumerate(env, rec, "matrix", m, &check);
     rec.set_exhaustive(true);
     (
-        "the complete matrix use_cache {omitted,true,false} x structured {omitted,true,false} x extensions {omitted,[rs],[rsx],[rs, empty string]} x lock {absent, valid ahead of the tree, corrupt text, empty, wrong type, negative, > u32} x mode {edit,check} x tree {references missing, none missing}, plus 10 error points (source_dir naming a regular .rs file that lacks references, or a symbolic link to it; config missing, invalid YAML, wrong shape, source_dir key absent, source dir missing, source dir a file, nothing in scope, extension list holding only the empty string over a tree of extension-less, hidden and .rs files); the project always lies inside a bigger working tree (a `.git` directory and a foreign Breadlog.lock saying 500000 in the directory above it; no inserted ID may come from there); every tree holds an extension-less file and a dot file with statements lacking references, which never are in scope x mode x lock x use_cache; small trees vary with the point (thorough: 20 variants per point). Oracle (reference model of the guide): disabled cache => lock untouched and IDs equal to the lock-absent baseline; omitted == true: inserting edit writes a parsable lock ahead of its IDs and a later run (after deleting the highest statement and adding one; for half of the points also after the configuration file got a newer timestamp than the lock) starts from the lock; unparsable lock => IDs equal to the lock-absent baseline and lock rewritten; structured/extension defaults; every error point => exit != 0 and strict snapshot equality. Non-trivial = any point other than all-explicit defaults with the lock absent".to_string(),
+        "the complete matrix use_cache {omitted,true,false} x structured {omitted,true,false} x extensions {omitted,[rs],[rsx],[rs, empty string]} x lock {absent, valid ahead of the tree, corrupt text, empty, wrong type, negative, > u32} x mode {edit,check} x tree {references missing, none missing}, plus 10 error points (the missing-source-directory point also started from the directory above the project, which has a directory of the configured relative name holding a file that lacks a reference; source_dir naming a regular .rs file that lacks references, or a symbolic link to it; config missing, invalid YAML, wrong shape, source_dir key absent, source dir missing, source dir a file, nothing in scope, extension list holding only the empty string over a tree of extension-less, hidden and .rs files); the project always lies inside a bigger working tree (a `.git` directory and a foreign Breadlog.lock saying 500000 in the directory above it; no inserted ID may come from there); every tree holds an extension-less file and a dot file with statements lacking references, which never are in scope x mode x lock x use_cache; small trees vary with the point (thorough: 20 variants per point). Oracle (reference model of the guide): disabled cache => lock untouched and IDs equal to the lock-absent baseline; omitted == true: inserting edit writes a parsable lock ahead of its IDs and a later run (after deleting the highest statement and adding one; for half of the points also after the configuration file got a newer timestamp than the lock) starts from the lock; unparsable lock => IDs equal to the lock-absent baseline and lock rewritten; structured/extension defaults; every error point => exit != 0 and strict snapshot equality. Non-trivial = any point other than all-explicit defaults with the lock absent".to_string(),
         vec!["only unambiguous invalid configurations are asserted; unknown extra keys and an omitted rust stanza are not asserted either way", "exhaustive=true: every point of the stated matrix was visited"],
     )
 }
